@@ -245,6 +245,16 @@ EXPRESSIONS = {  # wrappers with a body of their own: expected expression (p0, p
     "tree.tree_leaves_depth_one": ("jax.tree_util.tree_leaves(p0, is_leaf=lambda l0: tree_structure(l0) == tree_structure(p0[0]))", "leaves down to sub-trees shaped like the first entry"),
 }
 SKIP = {"np.save", "np.load"}  # I/O helpers of the benchmarks
+# defaults of the wrappers' optional parameters as the interpreter's models assume them: the documented defaults of the like-named library routines
+# (func.jet: the package's own convention -- derivatives unless told otherwise).  Compared only where a code path of the property calls the primitive
+# without the option.
+FORWARD_DEFAULTS = {
+    "flow.scan": {"length": "None", "reverse": "False"}, "func.jet": {"is_tcoeff": "False"}, "func.jit": {"static_argnames": "None", "static_argnums": "None"},
+    "func.vmap": {"in_axes": "0", "out_axes": "0"}, "np.arange": {"step": "1"}, "np.asarray": {"dtype": "None"}, "np.concatenate": {"axis": "0"}, "np.diff": {"axis": "-1"},
+    "np.eye": {"dtype": "None", "m": "None"}, "np.flip": {"axis": "None"}, "np.linspace": {"endpoint": "True", "num": "50"}, "np.mean": {"axis": "None", "keepdims": "False"},
+    "np.ones": {"dtype": "None"}, "np.reshape": {"order": "'C'"}, "np.stack": {"axis": "0"}, "np.std": {"axis": "None", "ddof": "0"}, "np.zeros": {"dtype": "None"},
+    "random.normal": {"dtype": "None"},
+}
 DEPENDS = {  # tabled expressions that call other wrappers of the module: those are part of the primitive's meaning
     "tree.tree_array_prepend": ("tree.tree_array_concatenate",), "tree.tree_array_append": ("tree.tree_array_concatenate",),
     "tree.tree_array_concatenate": ("tree._tree_array_transpose",), "tree.tree_array_stack": ("tree._tree_array_transpose",),
@@ -337,6 +347,18 @@ def forward_contract_rules(chk, S, rule, prims, usage=None):
             rule.unknown(construct, "the body is no longer a straight-line forward; the primitive would have to be re-read", loc)
             continue
         canon = _canon_params(fn)
+        # the wrapper's own defaults, where this property's code paths rely on them
+        use0 = (usage or {}).get(prim)
+        now = _param_defaults(fn)
+        pos0 = [a.arg for a in fn.args.posonlyargs + fn.args.args]
+        bad_defaults = []
+        for pname, dflt in FORWARD_DEFAULTS.get(prim, {}).items():
+            omitted = use0 is None or any(not (pname in kws or (pname in pos0 and pos0.index(pname) < nargs)) for nargs, kws in use0)
+            if omitted and pname in now and now[pname] != dflt:
+                bad_defaults.append(f"default of {pname!r} is {now[pname]} (assumed: {dflt}), and code paths of this property call the primitive without it")
+        if bad_defaults:
+            rule.fail(construct, "; ".join(bad_defaults), loc, {"primitive": prim})
+            continue
         if prim in EXPRESSIONS:
             want_src, meaning = EXPRESSIONS[prim]
             got_src = _canon_src(body, canon)
